@@ -174,6 +174,13 @@ def ens_cases(draw, tier):
         c['npts'] = draw(st.integers(2, 5))
     if draw(st.integers(0, 2)) == 0:
         c['penalty'] = draw(lab.penalty_specs(dim))
+    # a termination that some members meet at their very first evaluation while the others go on iterating
+    c['term'] = draw(st.sampled_from([None, None, ['vtr', 0.5], ['vtr', 5.0], ['vtr', 1e-3], ['or', 0.5], ['or', 5.0], ['cog']]))
+    if c['term'] and c['term'][0] in ('vtr', 'or') and c['kind'] == 'lattice' and draw(st.booleans()):
+        # put the optimum of a quadratic bowl on one cell centre: that member starts at energy 0
+        cell = [draw(st.integers(0, n - 1)) for n in c['nbins']]
+        centre = [float(l) + (j + 0.5) * (float(h) - float(l)) / n for l, h, j, n in zip(lo, hi, cell, c['nbins'])]
+        c['cost'] = dict(fam='quad', a=centre, w=[1.0] * dim, ret='float')
     return c
 
 
@@ -191,6 +198,12 @@ def ens_run(case, ctx, mapname, step):
     s.SetEvaluationLimits(generations=case['maxiter'])
     pen = lab.make_penalty(case.get('penalty'))
     if pen is not None: s.SetPenalty(pen)
+    t = case.get('term')
+    if t:
+        import mystic.termination as T
+        if t[0] == 'vtr': s.SetTermination(T.VTR(F(t[1]), 0.0))
+        elif t[0] == 'or': s.SetTermination(T.Or(T.VTR(F(t[1]), 0.0), T.ChangeOverGeneration(1e-8, 3)))
+        else: s.SetTermination(T.ChangeOverGeneration(1e-6, 2))
     if mapname != 'python':
         s.SetMapper(lab.get_map(mapname, case['order_seed']))
     s.Solve(cost, disp=0, step=step)
@@ -210,13 +223,16 @@ def run_ens(case, ctx):
                    lambda: dict(kind=case['kind'], nested=case['nested'], map=case['map'], step=case['step'], differs=k,
                                 python_map_solve=base[k], other=other[k]))
     ctx.label('ens:' + case['kind'], 'nested:' + case['nested'], 'map:' + case['map'], 'step' if case['step'] else 'solve')
+    ctx.label('term:%s' % (case['term'][0] if case.get('term') else 'default'))
+    if min(base['all_iters']) == 0 and max(base['all_iters']) >= 1:
+        ctx.label('a-member-stopped-at-generation-0')
     ctx.nontrivial(len(base['all_bestEnergy']) >= 2 and max(base['all_iters']) >= 2)
 
 
 TESTS = [
     Test('order', run_order, strategy=lambda tier: order_cases(tier), examples={'quick': 2400, 'thorough': 60000}),
     Test('map', run_map, strategy=lambda tier: map_cases(tier), examples={'quick': 800, 'thorough': 20000}),
-    Test('ensemble', run_ens, strategy=lambda tier: ens_cases(tier), examples={'quick': 320, 'thorough': 8000}),
+    Test('ensemble', run_ens, strategy=lambda tier: ens_cases(tier), examples={'quick': 640, 'thorough': 12000}),
 ]
 
 KNOWN = {}
